@@ -16,6 +16,8 @@
      [Ord::cmp x y]; [PartialOrd::partial_cmp x y]; [x < y; x <= y; x > y; x >= y]   (0 Less, 1 Equal, 2 Greater)
      all derived from the one comparison the codecs take as parameter (Exec.quad_cmp / cubic_cmp).
    Point cases: deg = 3 is Fp[u]/(u^3 - nr).
+   Every op that serialises returns the bytes AND the advertised size (c_size / c_sizep / sw_size / te_size);
+   the decode ops 3, 4 return [value; (flag;) consumed; re-encoding; advertised size].
    Errors: [1; kind] with kind as in Bytes.v. *)
 From V Require Import Base.Field C09.Bytes C09.FpCodec C09.PointCodec C09.Exec.
 
